@@ -1,7 +1,10 @@
 (* C03 -- property theorems only.  Statements are about the model of the factorised-tensor modules
    (Model/Factorized.v; round 7 additions in Model/Factorized2.v: tucker_to_tensor(modes=...) with any modes, 0-order inputs, the generic
-   einsum reading of the einsum TT-matrix route, cp_norm with conjugation; validator programs: Model/FactorizedSrc.v / FactorizedSrc2.v),
-   for EVERY carrier F whose operations form a commutative ring, every order, every mode size and every rank. *)
+   einsum reading of the einsum TT-matrix route, cp_norm with conjugation, the Hermitian PARAFAC2 validator of /repo 0c112da; validator
+   programs: Model/FactorizedSrc.v / FactorizedSrc2.v), for EVERY carrier F whose operations form a commutative ring, every order, every mode
+   size and every rank.  Round 8 (Proofs29-32): the Hermitian validator accepted-iff and the reconstruction behind it, the raw TT chain without
+   a boundary-rank hypothesis, __setitem__ histories by induction.  One _partial (C03_cp_obj_views_partial) next to the two _refuted theorems
+   about the deliberately unrepaired stale wrapper cache; former refutations are C03_before_<commit> Examples. *)
 From Coq Require Import List Arith ZArith Ring Lia Reals RealField.
 From TLV Require Import Base.Shape Base.PyList Base.Tensor Base.BigSum Base.Ops Model.Base Model.Factorized Model.FactorizedSrc Model.Factorized2 Model.FactorizedSrc2
   Proofs.FactorizedProofs Proofs.FactorizedProofs2 Proofs.FactorizedProofs3 Proofs.FactorizedProofs4
